@@ -4,6 +4,9 @@ import (
 	"math"
 	"strconv"
 	"strings"
+	"sync/atomic"
+
+	"verif/engine/mc"
 )
 
 // ZErr is any failure of a reference run.  In the reference semantics every
@@ -231,19 +234,42 @@ func (rf *Ref) pop() { f := rf.cur(); f.blocks = f.blocks[:len(f.blocks)-1] }
 
 // RunProgram executes a main program with inputs.
 func (rf *Ref) RunProgram(p *Program, inputs map[string]V) (res V, err *ZErr, aborted bool) {
+	refRuns.Add(1)
 	defer func() {
 		if x := recover(); x != nil {
 			if _, ok := x.(stepLimit); ok {
 				aborted = true
+				refAborted.Add(1)
 				return
 			}
 			panic(x)
+		}
+		switch {
+		case rf.Open:
+			refOpen.Add(1)
+		case err != nil:
+			refFaults.Add(1)
+			if len(rf.Trace) == 0 {
+				refFaultsSilent.Add(1)
+			}
+		default:
+			refCompleted.Add(1)
 		}
 	}()
 	mod := &modEnv{name: "主模块", consts: map[string]*binding{}}
 	rf.Main = mod
 	res, err = rf.runModule(mod, p, inputs, true)
 	return
+}
+
+// run counters of the reference (vacuity guard: see mc.ExtraStats)
+var refRuns, refCompleted, refFaults, refFaultsSilent, refOpen, refAborted atomic.Int64
+
+func init() {
+	mc.ExtraStats = append(mc.ExtraStats, func() map[string]int64 {
+		return map[string]int64{"ref_runs": refRuns.Load(), "ref_completed": refCompleted.Load(), "ref_faults": refFaults.Load(),
+			"ref_faults_before_any_trace": refFaultsSilent.Load(), "ref_open": refOpen.Load(), "ref_aborted": refAborted.Load()}
+	})
 }
 
 func (rf *Ref) runModule(mod *modEnv, p *Program, inputs map[string]V, isMain bool) (V, *ZErr) {
